@@ -202,6 +202,8 @@ def serial_sweep(run, prefixes, thorough=False):
             hd, bad, _ = srv.expand(hist, [], e1.F_DUMP)
             req = [d for d in hd if d['t'] == 'req' and d['id'] == 1]
             if len(req) != 1:
+                if run.violations or run.capped:
+                    return {'serial_sweep_n_values': n_done}
                 raise common.HarnessError('serial sweep: probe client not live after its announcement (n=%d)' % n)
             tag = req[0]['tag']
             good = ('L', '-1 X login.svc %s :OK acctA:7\n-1 X drone.svc %s :OK\n' % (tag, tag))
@@ -221,7 +223,7 @@ def serial_sweep(run, prefixes, thorough=False):
                 if r.status != 'ok' or r.out:
                     if any('C04.'.startswith(p) for p in prefixes): run.violation('C04.serial-sweep-stale', 'a %s reply carrying the tag %s of the departed previous instance of id 1 (the live one is %s, n=%d) produced %r (%s)' % (what, tag_prev, tag, n, r.out, r.status),
                                   {'engine': 'E1-sweep', 'conf': conf, 'n': n}, dedup='sweep04' + what)
-    if base is None or base[0] != 'ok' or not any(l.startswith('R 1 ') for l in base[1]):
+    if (base is None or base[0] != 'ok' or not any(l.startswith('R 1 ') for l in base[1])) and not run.violations and not run.capped:
         raise common.HarnessError('serial sweep: the baseline conversation did not end in an R verdict: %r' % (base,))
     return {'serial_sweep_n_values': n_done, 'serial_sweep_max_n': max(SWEEP_N[:n_done]) if n_done else 0}
 
